@@ -40,10 +40,47 @@ func formatRole(role string, ap netip.AddrPort) string {
 	return types.ControllerAddr{AddrPort: ap}.String()
 }
 
+// setRole: the flag.Value style entry point (Set on a zero value) of the same parser
+func setRole(role, s string) (netip.AddrPort, error) {
+	switch role {
+	case "bind":
+		var a types.BindAddr
+		err := a.Set(s)
+		return a.AddrPort, err
+	case "broadcast":
+		var a types.BroadcastAddr
+		err := a.Set(s)
+		return a.AddrPort, err
+	case "listen":
+		var a types.ListenAddr
+		err := a.Set(s)
+		return a.AddrPort, err
+	}
+	var a types.ControllerAddr
+	err := a.Set(s)
+	return a.AddrPort, err
+}
+
+func fromRole(role string, addr netip.Addr, port uint16) string {
+	switch role {
+	case "bind":
+		return types.BindAddrFrom(addr, port).String()
+	case "broadcast":
+		return types.BroadcastAddrFrom(addr, port).String()
+	case "listen":
+		return types.ListenAddrFrom(addr, port).String()
+	}
+	return types.ControllerAddrFrom(addr, port).String()
+}
+
 func parseOut(role, s string) M {
+	return parseOutVia(role, s, parseRole)
+}
+
+func parseOutVia(role, s string, parse func(string, string) (netip.AddrPort, error)) M {
 	var out M
 	if p, msg := guard(func() {
-		ap, err := parseRole(role, s)
+		ap, err := parse(role, s)
 		if err != nil {
 			out = M{"t": "err"}
 		} else if !ap.Addr().Is4() {
@@ -72,8 +109,13 @@ func runC15(o *opts) (*summary, error) {
 	}
 	rng := rand.New(rand.NewSource(o.seed))
 	thorough := o.tier == "thorough"
+	nset := 0
 	emit := func(role, s, class string) {
 		w.put(M{"fn": "parse", "role": role, "s": cps(s), "text": s, "out": parseOut(role, s)}, class, role+"|"+s)
+		// the same text through Set() on a zero value (every fourth text): judged like Parse
+		if nset++; nset%4 == 0 || class == "odd" || class == "ports-odd" {
+			w.put(M{"fn": "parse", "role": role, "s": cps(s), "text": s, "out": parseOutVia(role, s, setRole), "entry": "Set"}, class+"-set", role+"|set|"+s)
+		}
 	}
 
 	// (1) all strings over {1,0,2,5,.,:} up to length 7 (9 thorough): those with fewer than three dots are
@@ -184,7 +226,13 @@ func runC15(o *opts) (*summary, error) {
 		}
 		var text string
 		var re M
-		if p, msg := guard(func() { text = formatRole(role, ap); re = parseOut(role, text) }); p {
+		if p, msg := guard(func() {
+			text = formatRole(role, ap)
+			if i%2 == 1 {
+				text = fromRole(role, ap.Addr(), ap.Port()) // the XAddrFrom constructors format alike
+			}
+			re = parseOut(role, text)
+		}); p {
 			re = M{"t": "panic", "msg": msg}
 		}
 		w.put(M{"fn": "format", "role": role, "ip": ints(ip[:]), "port": port, "text": cps(text), "reparsed": re}, "format", role+"|f|"+s)
